@@ -177,7 +177,7 @@ func c15Unit(c *RunCtx, unit int) {
 		}
 		seed()
 		// --- password login: redir in the body and in the query
-		for _, where := range []string{"body", "query", "query-twice-safe-first", "query-twice-safe-last", "body-safe-query-R", "body-R-query-safe"} {
+		for _, where := range []string{"body", "query", "query-twice-safe-first", "query-twice-safe-last", "body-safe-query-R", "body-R-query-safe", "body-empty-query-R"} {
 			b := x.browser()
 			rq := world.Req{Method: "POST", Path: P("/login"), Form: map[string]string{"email": "plain@site.test", "password": pw}}
 			switch where {
@@ -195,6 +195,10 @@ func c15Unit(c *RunCtx, unit int) {
 			case "body-R-query-safe":
 				rq.Form["redir"] = R
 				rq.Path += "?redir=%2Fwelcome"
+			case "body-empty-query-R":
+				// a login form whose hidden redir field is posted empty while the page's own URL carries one
+				rq.Form["redir"] = ""
+				rq.Path += "?redir=" + url.QueryEscape(R)
 			}
 			rec := w.Do(b, rq)
 			if rec.SessOut["uid"] == "" {
@@ -223,6 +227,12 @@ func c15Unit(c *RunCtx, unit int) {
 			w.Do(b, world.Req{Method: "POST", Path: P("/login"), Form: map[string]string{"email": "totp@site.test", "password": pw}})
 			rec = w.Do(b, world.Req{Method: "POST", Path: P("/2fa/totp/validate"), Form: map[string]string{"code": sim.TOTPNow(tsec), "redir": R}})
 			x.judge("totp-validate-body", R, rec, rec.SessOut["uid"] != "", world.PathLoginOK)
+			// the validate form as a browser posts it after the hijack redirect: query carried over, the
+			// form's own (empty) redir field in the body
+			b = x.browser()
+			w.Do(b, world.Req{Method: "POST", Path: P("/login") + q, Form: map[string]string{"email": "totp@site.test", "password": pw}})
+			rec = w.Do(b, world.Req{Method: "POST", Path: next, Form: map[string]string{"code": sim.TOTPNow(tsec), "redir": ""}})
+			x.judge("totp-validate-empty-body-field", R, rec, false, world.PathLoginOK)
 		}
 		// --- TOTP / SMS: return target posted in the BODY of the password step, none at the second step
 		{
